@@ -1,16 +1,22 @@
 (* What the translator (harness/c14, Gen/Servers.v) records about a discovered server. *)
 From SC Require Import Base.Prelude.
 
-(* the equivalence the model configures for the resource (resource.WithEquivalence):
-   none; proto.Equal (WithNoDuplicates) -- which also stands for cmp.Equal(FloatValueApprox(0, 0.01)):
-   on the generator's grid of floats (values at least 0.5 apart) the tolerance relates exactly the
-   equal messages, and the harness re-checks this on every history with the real comparer *)
-Inductive eqkind := EqNone | EqExact.
+(* the equivalence the model configures for the resource:
+     EqNone    no de-duplication at all;
+     EqExact   proto.Equal inside the model's own Pull<R> (cmp.Equal() written in the Pull method);
+     EqOracle  the resource.Value behind the triple carries a Comparer (resource.WithEquivalence /
+               WithMessageEquivalence / WithNoDuplicates).  The harness takes that very comparer out of
+               the constructed server and evaluates it on the pairs of values a history can compare;
+               the pairs it relates travel with the case (oracle table).  The judge accepts such a
+               verdict only between values that differ in float leaves alone: "equivalence tolerance"
+               in the property is a numeric tolerance, a comparer that ignores a non-float field does
+               not make a change of that field "no change" (Servers/C14Judge.v, [equiv_of]). *)
+Inductive eqkind := EqNone | EqExact | EqOracle.
 
 Record srvinfo := mkSrv {
   sv_type : string;        (* full name of the resource message *)
   sv_eq : eqkind;
   sv_keyed : bool;         (* the triple addresses one item of a collection (created by the harness) *)
   sv_get : string; sv_update : string; sv_pull : string;
-  sv_eq_source : string    (* "none" | "exact" | "approx" as read from DefaultModelOptions *)
+  sv_eq_source : string    (* what the source text of DefaultModelOptions says: "none" | "exact" | "approx(f,m)" | "custom:<expr>" *)
 }.
